@@ -1,6 +1,7 @@
 package decoder
 
 import (
+	"fmt"
 	"strconv"
 	"unsafe"
 
@@ -48,6 +49,55 @@ var (
 		']':  true,
 	}
 )
+
+// validNumber reports whether num is a number of the JSON grammar (RFC 8259, section 6).
+// strconv.ParseFloat accepts more than that: "01", "1.", "-.5", "1.e2".
+func validNumber(num []byte) bool {
+	i := 0
+	if i < len(num) && num[i] == '-' {
+		i++
+	}
+	switch {
+	case i == len(num):
+		return false
+	case num[i] == '0':
+		i++
+	case '1' <= num[i] && num[i] <= '9':
+		for i < len(num) && '0' <= num[i] && num[i] <= '9' {
+			i++
+		}
+	default:
+		return false
+	}
+	if i < len(num) && num[i] == '.' {
+		i++
+		digits := i
+		for i < len(num) && '0' <= num[i] && num[i] <= '9' {
+			i++
+		}
+		if i == digits {
+			return false
+		}
+	}
+	if i < len(num) && (num[i] == 'e' || num[i] == 'E') {
+		i++
+		if i < len(num) && (num[i] == '+' || num[i] == '-') {
+			i++
+		}
+		digits := i
+		for i < len(num) && '0' <= num[i] && num[i] <= '9' {
+			i++
+		}
+		if i == digits {
+			return false
+		}
+	}
+	return i == len(num)
+}
+
+func errInvalidNumber(num []byte, offset int64) error {
+	return errors.ErrSyntax(fmt.Sprintf("json: invalid number literal %q", num), offset)
+}
 
 func floatBytes(s *Stream) []byte {
 	start := s.cursor
@@ -131,6 +181,9 @@ func (d *floatDecoder) DecodeStream(s *Stream, depth int64, p unsafe.Pointer) er
 	if err != nil {
 		return errors.ErrSyntax(err.Error(), s.totalOffset())
 	}
+	if !validNumber(bytes) {
+		return errInvalidNumber(bytes, s.totalOffset())
+	}
 	d.op(p, f64)
 	return nil
 }
@@ -152,6 +205,9 @@ func (d *floatDecoder) Decode(ctx *RuntimeContext, cursor, depth int64, p unsafe
 	f64, err := strconv.ParseFloat(s, 64)
 	if err != nil {
 		return 0, errors.ErrSyntax(err.Error(), cursor)
+	}
+	if !validNumber(bytes) {
+		return 0, errInvalidNumber(bytes, cursor)
 	}
 	d.op(p, f64)
 	return cursor, nil
